@@ -27,7 +27,7 @@ func init() {
 	register(&Property{
 		ID:    "C16",
 		Level: "fault_enumeration",
-		Rule: "scripted raw-TCP backend whose bytes the harness knows, behind forward.New wrapped in NewStateListener and a status-recording writer under a real http.Server; response shapes: statuses 200-599, 0-10 headers, bodies 0..2MB, Content-Length or chunked with chunk patterns; fault kinds x positions: connection refused, close / RST at {accept, after the request was read, mid-head, after the head, mid-body at byte k, before the last chunk}, garbage head, stall beyond ResponseHeaderTimeout, stall in the middle of the response head detected by an idle deadline on the backend connection, client cancel before the head and mid-body; " +
+		Rule: "scripted raw-TCP backend whose bytes the harness knows, behind forward.New wrapped in NewStateListener and a status-recording writer under a real http.Server; response shapes: statuses 200-599, 0-10 headers, bodies 0..2MB, Content-Length or chunked with chunk patterns; fault kinds x positions: connection refused, close / RST at {accept, after the request was read, mid-head, after the head, mid-body at byte k, before the last chunk}, garbage head, stall beyond ResponseHeaderTimeout, stall in the middle of the response head detected by an idle deadline on the backend connection, client cancel before the head and mid-body, a request whose context is already cancelled when it reaches the listener; " +
 			"further shapes: 103 Early Hints first, statuses 600-999, head-first streams (the backend waits until the client holds the head), a stall in the middle of the head detected by an idle deadline on the backend connection (504); a third of the fault-free/refused/closed cases run with the forwarder behind a never-tripping circuit breaker or a rebalanced round-robin; " +
 			"expected client view and status mapping computed from the script (502 when no response byte was received, 504 on header timeout, 499 recorded for a cancelled client, 500 or 502 for a damaged head, the head plus a prefix of the body and never extra bytes for a failure after the head); every 'connected' must be followed by exactly one 'disconnected'; a probe request must succeed after each fault; non-trivial = case with a fault or a body >= 64kB or chunked framing; distinct by (fault kind, position, response shape)",
 		Assumptions: []string{"hang watchdog of 60s per request (here a hang is a violation, by the statement)", "ResponseHeaderTimeout 150ms on a forwarder used only for the stall fault, idle read deadline 300ms on a forwarder used only for the stall-mid-head fault; every other case runs with generous timeouts"},
@@ -391,6 +391,14 @@ func c16Relay(c *Ctx) {
 		defer close(ch)
 		target := req.Header.Get("X-Target")
 		req.Header.Del("X-Target")
+		if req.Header.Get("X-Gone-Already") != "" {
+			// the client gave up while the request was held upstream (in a limiter, a buffer, a retry wait): by the time
+			// the request reaches the listener and the forwarder its context is already done
+			req.Header.Del("X-Gone-Already")
+			gone, cancelNow := context.WithCancel(req.Context())
+			cancelNow()
+			req = req.WithContext(gone)
+		}
 		if req.Header.Get("X-Route-Inside") != "" {
 			req.Header.Del("X-Route-Inside")
 			req.Header.Set("X-Route-To", target)
@@ -428,7 +436,7 @@ func c16Relay(c *Ctx) {
 	client := &http.Client{Transport: &http.Transport{DisableKeepAlives: true}, Timeout: 60 * time.Second,
 		CheckRedirect: func(*http.Request, []*http.Request) error { return http.ErrUseLastResponse }}
 
-	faults := []string{"none", "none", "none", "refuse", "close-accept", "close-after-request", "rst-after-request", "cut-head", "garbage-head", "cut-body", "cut-before-last-chunk", "stall", "cancel-before-head", "cancel-mid-body", "stall-mid-head", "bad-address"}
+	faults := []string{"gone-already", "none", "none", "none", "refuse", "close-accept", "close-after-request", "rst-after-request", "cut-head", "garbage-head", "cut-body", "cut-before-last-chunk", "stall", "cancel-before-head", "cancel-mid-body", "stall-mid-head", "bad-address"}
 	n := c.N(len(faults)*50, len(faults)*1200)
 	c.Cases("case", n, func(i int, r *rand.Rand) {
 		p := c16Plan{Fault: faults[i%len(faults)], NHeaders: r.IntN(11), RST: r.IntN(2) == 0}
@@ -468,7 +476,7 @@ func c16Relay(c *Ctx) {
 		if r.IntN(12) == 0 && p.Fault == "none" {
 			p.Status = pick(r, []int{600, 612, 799, 999}) // unusual but legal: net/http accepts every three-digit status
 		}
-		if (p.Fault == "none" || p.Fault == "refuse" || p.Fault == "close-after-request") && r.IntN(3) == 0 {
+		if (p.Fault == "none" || p.Fault == "gone-already" || p.Fault == "refuse" || p.Fault == "close-after-request") && r.IntN(3) == 0 {
 			p.Behind = pick(r, []string{"breaker", "rebalancer"})
 		}
 		if (p.Fault == "close-after-request" || p.Fault == "rst-after-request" || p.Fault == "stall") && r.IntN(3) == 0 {
@@ -545,6 +553,9 @@ func c16Relay(c *Ctx) {
 		}
 		if p.Fault == "stall" {
 			req.Header.Set("X-Stall", "1")
+		}
+		if p.Fault == "gone-already" {
+			req.Header.Set("X-Gone-Already", "1")
 		}
 		if p.Fault == "cancel-before-head" {
 			go func() { time.Sleep(40 * time.Millisecond); cancel() }()
@@ -677,6 +688,11 @@ func c16Relay(c *Ctx) {
 		case "cut-head", "garbage-head":
 			if status != 500 && status != 502 {
 				c.Violation("mapping/damaged-head", sfmt("fault %s: client saw status %d err %v, want 500 or 502", p.Fault, status, cr.err), p)
+				return
+			}
+		case "gone-already":
+			if recorded != 499 {
+				c.Violation("mapping/client-gone-499", sfmt("the request's context was already cancelled when it reached the forwarder (behind=%q): recorded status %d, want 499; error given to the error handler: %q", p.Behind, recorded, errTxt), p)
 				return
 			}
 		case "cancel-before-head":
